@@ -17,11 +17,22 @@ pub fn get_conflict_watch_key(change: &Change) -> String {
 }
 impl Database {
     pub fn list_conflicts_keys(&self, key: &String) -> Vec<String> {
-        let pendding_conflict = self.list_keys(
-            &String::from(format!("{prefix}_{key}", key = key, prefix = CONFLICTS_KEY)),
-            true,
-        );
-        pendding_conflict
+        let all_conflicts = self.list_keys(&String::from(format!("{}_*", CONFLICTS_KEY)), true);
+        if key.is_empty() {
+            return all_conflicts;
+        }
+        // Only the conflicts of this exact key: `<prefix>_<key>_<opp_id>` (a key that merely
+        // contains this one must not share its conflict queue)
+        let key_prefix = format!("{prefix}_{key}_", key = key, prefix = CONFLICTS_KEY);
+        all_conflicts
+            .into_iter()
+            .filter(|conflict_key| {
+                conflict_key.starts_with(&key_prefix)
+                    && conflict_key[key_prefix.len()..]
+                        .bytes()
+                        .all(|b| b.is_ascii_digit())
+            })
+            .collect()
     }
     // Separate local conflict with replication conflict
     pub fn try_resolve_conflict_response(
